@@ -95,7 +95,6 @@ def check(ctx: Ctx) -> str:
     ctx.check("defer_init=defer_init" in ast.unparse(gen.node) and "optimized=self.optimized" in ast.unparse(gen.node), "generate:passes", "environment:Environment._generate", "options passed on", "_generate must pass defer_init and optimized to the code generator", gen.loc())
     gf = repo.func("loaders:ModuleLoader.get_module_filename")
     gk = repo.func("loaders:ModuleLoader.get_template_key")
-    ctx.check(ast.unparse(astq.returns(gf.node)[0].value) == "ModuleLoader.get_template_key(name) + '.py'", "key:filename", "loaders:ModuleLoader.get_module_filename", "file name from the key", "the module file name must be get_template_key(name) + '.py'", gf.loc())
     def _parts(e: ast.AST) -> list[str]:
         # 'a' + x, f'a{x}' and 'a{}'.format(x) are the same text: literal pieces and expressions in order
         if isinstance(e, ast.BinOp) and isinstance(e.op, ast.Add):
@@ -109,6 +108,7 @@ def check(ctx: Ctx) -> str:
             return [repr(e.value)]
         return [ast.unparse(e)]
 
+    ctx.check(_parts(astq.returns(gf.nnode)[0].value) == ["ModuleLoader.get_template_key(name)", "'.py'"], "key:filename", "loaders:ModuleLoader.get_module_filename", "file name from the key", "the module file name must be get_template_key(name) + '.py'", gf.loc())
     ctx.check(_parts(astq.returns(gk.nnode)[0].value) == ["'tmpl_'", "sha1(name.encode('utf-8')).hexdigest()"], "key:hash", "loaders:ModuleLoader.get_template_key", "key function", "the template key must be tmpl_<sha1 of the name>", gk.loc())
     ld = repo.func("loaders:ModuleLoader.load")
     s = ast.unparse(ld.node)
